@@ -3,7 +3,7 @@ from common import *
 from props.framelib import *
 
 RULE = ("MC: all toy-profile strings up to length 8 (partition, stability) + real-constant CRC/frame theorems; "
-        "TV: FrameNew events = MessageFrame::new on random slices, library-built frames of all supported types, "
+        "GEN->replay: for payload lengths {0,1,2,3,4,19,254,255,256,511,512,1022,1023} (thorough: every length 0..1023) TLC emits the valid frame and 19 near-misses with the admissible outcomes and fixed observations, replayed on MessageFrame::new; TV: FrameNew events = MessageFrame::new on random slices, library-built frames of all supported types, "
         "valid frames of boundary/all payload lengths and their near-misses (wrong preamble, truncations, checksum "
         "bit/byte errors, length +-1/+-256, reserved bits with/without CRC refresh, trailing bytes); an event is "
         "non-trivial when the slice starts with 0xD3; distinct = distinct byte strings")
@@ -20,6 +20,20 @@ def run(chk):
     chk.add_mc(mc("MC_Frame", "MC_Frame.cfg", workers=8))
     chk.add_mc(mc("MC_Crc", "MC_Crc.cfg" if q else "MC_Crc_thorough.cfg", workers=2, timeout=3000))
     chk.add_neg(mc("MC_Frame", "NEG_C13.cfg", expect_fail=True))
+    # GEN -> replay: spec-chosen slices (valid frame + near-misses per payload length) with the spec's expectation
+    g = gen("Gen_Frame", "Gen_Frame.cfg" if q else "Gen_Frame_thorough.cfg", chk.path("gen.vec"), timeout=3000)
+    chk.cov["gen_runs"].append({"module": "Gen_Frame", "behaviours": g["behaviours"]})
+    res = replay_vectors("frames", chk.path("gen.vec"), chk.path("gen.res"))
+    for ln in open(res):
+        o = json.loads(ln)
+        if o["ev"] == "Mismatch":
+            v = o["vector"]
+            chk.violation("GEN replay: got %s admissible %s" % (o["got"].get("out"), v["admissible"]),
+                          "MessageFrame::new on a spec-generated slice (%d bytes) answers %s, the specification admits %s / %s" % (len(v["bytes"]), json.dumps(o["got"])[:200], v["admissible"], v["obs"]),
+                          {"vector": v, "got": o["got"]})
+        elif o["ev"] == "ReplaySummary":
+            chk.cov["traces_validated_against_impl"] += o["vectors"]
+            chk.cov["evaluations"] += o["vectors"]
     t = record("frame_new", chk.path("fn.ndjson"), n=5000 if q else 60000, seed=chk.seed, all_lengths=0 if q else 1)
     r = tv("Trace_Frame", "Trace_Frame.cfg", t, shards=10, tag="C03")
     chk.add_tv("frame_new", r)
